@@ -353,6 +353,47 @@ class Engine:
         raise Unsupported(f"await of {aw.kind}")
 
     # ------------------------------------------------------------------ loops
+    def _accumulation_loop(self, it: Interp, node: ast.For, env: Env) -> bool:
+        """`for x in S: [if c:] L.append(e)`  and  `for x in S: D[k] = v` (D an empty dict) are the
+        explicit forms of a list / dict comprehension (T-COLL): summarised the same way, no invariant needed."""
+        st = it.st
+        if node.orelse or len(node.body) != 1:
+            return False
+        stmt, tests = node.body[0], []
+        if isinstance(stmt, ast.If) and not stmt.orelse and len(stmt.body) == 1:
+            tests, stmt = [stmt.test], stmt.body[0]
+        gen = ast.comprehension(target=node.target, iter=node.iter, ifs=tests, is_async=0)
+        if isinstance(stmt, ast.Expr) and isinstance(stmt.value, ast.Call) and isinstance(stmt.value.func, ast.Attribute) \
+                and stmt.value.func.attr == "append" and isinstance(stmt.value.func.value, ast.Name) \
+                and len(stmt.value.args) == 1 and not stmt.value.keywords:
+            target = env.lookup(stmt.value.func.value.id)
+            if target is None or lib._cname(it, target) != "list":
+                return False
+            comp_node = ast.copy_location(ast.ListComp(elt=stmt.value.args[0], generators=[gen]), node)
+            ast.fix_missing_locations(comp_node)
+            items = it.eval(comp_node, env)
+            lib.LIB["list.extend"](it, LibV("list.extend", target), CallArgs([items]), node)
+            return True
+        if isinstance(stmt, ast.Assign) and len(stmt.targets) == 1 and isinstance(stmt.targets[0], ast.Subscript) \
+                and isinstance(stmt.targets[0].value, ast.Name) and not tests:
+            target = env.lookup(stmt.targets[0].value.id)
+            if target is None or lib._cname(it, target) != "dict":
+                return False
+            p = lib.dict_parts(it, target)
+            if not st.entails(p["hi"] == p["lo"]):
+                return False              # only an (initially) empty accumulator is a plain dict comprehension
+            comp_node = ast.copy_location(ast.DictComp(key=stmt.targets[0].slice, value=stmt.value, generators=[gen]), node)
+            ast.fix_missing_locations(comp_node)
+            d = it.eval(comp_node, env)
+            q = lib.dict_parts(it, d)
+            for f, k in (("$dhas", "has"), ("$dval", "val"), ("$dpos", "pos"), ("$arr", "keys"), ("$lo", "lo"), ("$hi", "hi")):
+                st.put(target, f, q[k])
+            for dc in st.ghost.get("$dictcomps", []):
+                if dc["result"].eq(d):
+                    dc["result"] = target
+            return True
+        return False
+
     def loop(self, it: Interp, node, env: Env) -> None:
         st = it.st
         is_for = isinstance(node, ast.For)
@@ -381,6 +422,8 @@ class Engine:
                 return
         c = st.contract
         spec = c.loop_spec(it, node, env) if c is not None else None
+        if spec is None and is_for and self._accumulation_loop(it, node, env):
+            return
         if spec is None:
             raise Unsupported(f"loop without invariant at line {node.lineno}")
         tag = spec.get("name", f"loop{it.pos(node)}")
